@@ -255,6 +255,15 @@ def generate(tier, seed):
     for body in ["[request_definition]\nr = a\n[policy_definition]\np = r_a\n[policy_effect]\ne = some(where (p.eft == allow))\n[matchers]\nm = r.a == p.r_a\n",
                  "[request_definition]\nr = sub, p_x\n[policy_definition]\np = x, sub\n[policy_effect]\ne = some(where (p.eft == allow))\n[matchers]\nm = r.sub == p.sub && r.p_x == p.x\n"]:
         cases.append("tt " + enc(body))
+    # to_text on field names that CONTAIN a definition key followed by an underscore further inside (user_id, owner_id,
+    # ip_addr, super_p_level): only the leading key of a token is a section prefix
+    for body in ["[request_definition]\nr = user_id, obj, act\n[policy_definition]\np = user_id, ip_addr, act\n[policy_effect]\ne = some(where (p.eft == allow))\n"
+                 "[matchers]\nm = r.user_id == p.user_id && r.obj == p.ip_addr && r.act == p.act\n",
+                 "[request_definition]\nr = owner_id, act\nr2 = super_p_level, act\n[policy_definition]\np = owner_id, act\np2 = super_p_level, act, eft\n"
+                 "[policy_effect]\ne = some(where (p.eft == allow))\ne2 = !some(where (p.eft == deny))\n"
+                 "[matchers]\nm = r.owner_id == p.owner_id && r.act == p.act\nm2 = r2.super_p_level == p2.super_p_level && r2.act == p2.act\n"]:
+        cases.append("tt " + enc(body))
+        cases.append("totext " + enc(body))
     for t in ["r.sub == p.sub", "pr.x r.y p2.z r22.q.w", "xr.sub", "r. p.", "(r.a)", "\"r.sub\"", "é r.x", "r_sub.p.x", "eval(p.rule)"]:
         cases.append("esc " + enc(t))
     for t in ["a # b", "#", "a#", "  x  # y # z", "no comment  ", ""]:
